@@ -64,5 +64,125 @@ CLAIMED = {
     ),
 }
 
+PENDING = {
+    "C01": dict(
+        category="exploration",
+        technique="reference-model monitor: real interpreter vs an independent naive stratified evaluator (Python) over generated programs; ASan+UBSan subset",
+        text=("Generated programs (typed, stratified, terminating by construction; negation, constraints, functors, records, ADTs, disjunction, "
+              "multiple heads, range, all five aggregates incl. empty sets, linear/non-linear/mutual recursion, eqrel) are run by the real "
+              "interpreter and every output relation is compared as a set, and checked for duplicates, against a naive stratified "
+              "evaluation by an independent Python model. Held on the programs explored (~1.7k quick, ~40k thorough). One recorded finding "
+              "(aggregate made recursive by MaterializeAggregationQueries), one repaired defect."),
+        note="trusts: the model's value semantics (written from the documentation); generator distribution; cases that produce NaN/-0.0 or leave the defined domain are discarded",
+        design="6 C01",
+    ),
+    "C07": dict(
+        category="exploration",
+        technique="differential monitor over generated programs: default join order vs user .plan permutations, 9 RamSIPS heuristics, --auto-schedule from the program's own profile",
+        text=("Generated recursive programs run by the real interpreter with the default order and with random .plan permutations for one / "
+              "every delta version of up to three recursive clauses, four of the nine RamSIPS heuristics, and --auto-schedule fed by the "
+              "profile of the same program (-j1 and -j4); outputs must be identical, no abort, valid plans accepted. Non-trivial = "
+              "transformed RAM really differs. One defect repaired (join-size statistics keyed by address), two recorded findings."),
+        note="trusts: generator distribution; interpreter only; random rather than all permutations",
+        design="6 C07",
+    ),
+    "C08": dict(
+        category="exploration",
+        technique="differential monitor (btree/brie/default re-qualification) + reference-model monitor for eqrel (Python union-find closure) over probe programs with extreme 32-bit values",
+        text=("(a) generated programs with every relation re-qualified btree/brie/default at random: outputs identical. (b) eqrel probe "
+              "programs over small/sparse/extreme number, unsigned and symbol values read by scan, filter, joins binding either or both "
+              "columns, constants in either column, negation and a recursive rule: every derived relation equals what the reflexive-"
+              "symmetric-transitive closure gives. One defect repaired (interpreter lookups bound to MIN_RAM_SIGNED)."),
+        note="trusts: generator/probe distribution; interpreter only (compiled code not covered by this check)",
+        design="6 C08",
+    ),
+    "C10": dict(
+        category="exploration",
+        technique="contract monitor over template programs with choice-domain (functional / well-founded sound / maximal / downstream consistency) at -j1..16 with injected schedule perturbation",
+        text=("Seven program shapes (one key, two keys, composite key, join candidates, recursive spanning tree, matching, chain) with random "
+              "facts run by the real interpreter at -j1 and three of {2,3,4,8,16} threads with perturbation; the final choice relation "
+              "must be functional on every declared key, equal the least fixpoint of its rules restricted to itself, leave no derivable "
+              "non-clashing tuple out, and downstream relations must agree with it."),
+        note="trusts: template coverage; interpreter only; OS + injected perturbation, not all interleavings",
+        design="6 C10",
+    ),
+    "C11": dict(
+        category="exploration",
+        technique="reference-model monitor over template programs with subsumptive clauses (Python computes the unsubsumed result U and its non-dominated tuples) at -j1/4/8",
+        text=("Bounded shortest paths (single-source, all-pairs), two-cost Pareto fronts, interval containment and per-key maxima with random "
+              "facts, btree_delete or default storage: no final tuple is dominated by another, final is a subset of U, equals the "
+              "non-dominated tuples of U, and is the same at -j1/-j4/-j8."),
+        note="trusts: template coverage; interpreter only",
+        design="6 C11",
+    ),
+    "C13": dict(
+        category="exploration",
+        technique="acceptance monitor: generated valid programs must be accepted; mutants with one injected defect (10 kinds) must exit 1 with an Error and write no output",
+        text=("Every generated program (valid by construction) must be accepted; one or two mutants per program with exactly one injected "
+              "defect (negation / aggregation cycle through 1-5 relations, ungrounded variable in head / negation / constraint / functor, "
+              "four kinds of type clash) must end with exit status 1, an Error diagnostic, no abort and no output file. One defect "
+              "repaired (valid program rejected: injected variable bound by a record pattern), one recorded finding."),
+        note="trusts: defects are ill-formed by construction; generator distribution",
+        design="6 C13",
+    ),
+    "C14": dict(
+        category="exploration",
+        technique="mutation fuzzing of program text (grammar-aware token edits + byte noise over the test corpus and generated programs) through the front end and synthesiser; assertions, signals, sanitizer reports and hangs are witnesses",
+        text=("Thousands of mutated programs per run go through `--show=transformed-ram` (whole front end, no evaluation) and a third through "
+              "`-g`; anything but exit 0/1 (signal, assertion, uncaught exception, ASan/UBSan report, exceeding 60 s and then 360 s) is a "
+              "violation. Evidence counts the mutants that got past the parser. Crash signatures of the pinned tree are recorded findings."),
+        note="'all byte strings' is sampled; hang = bounded-time restatement; a new crash signature on a fresh seed is a VIOLATION by design",
+        design="6 C14",
+    ),
+    "C15": dict(
+        category="exploration",
+        technique="round-trip monitor: print (--show=initial-ast) -> reparse -> print fixpoint -> run both and compare outputs, over generated programs and a syntax-zoo generator",
+        text=("For generated programs decorated with qualifiers and for template programs covering operators, escapes, casts, records, ADTs, "
+              "aggregates, plans, limitsize, inline, choice-domain, subsumption, eqrel, functor declarations, components with overrides, "
+              "I/O parameters and numeric literal forms: the printed program parses, printing it again gives the same text, and it "
+              "computes the same outputs. Three printer defects repaired."),
+        note="trusts: the surface syntax covered is what the two generators emit",
+        design="6 C15",
+    ),
+    "C19": dict(
+        category="exploration",
+        technique="differential monitor (-t explain vs none) + offline proof checker over the JSON proof trees of `explain`, against the program AST and the reference model",
+        text=("Programs of the provenance fragment run without provenance and with -t explain (default pipeline and with the AST "
+              "optimisations off): same outputs; up to 40 proofs per program are checked node by node (tuple in the model, children follow "
+              "the cited rule as souffle prints it, negated children absent, ground constraints true, leaves are facts; with optimisations "
+              "off also: the children instantiate a source rule of the relation under one substitution that satisfies negations and "
+              "constraints and yields the node's tuple); non-members must answer 'Tuple not found'. Two defects repaired."),
+        note="trusts: the reference model; interpreter only; eqrel nodes: membership only; nodes of synthetic relations are counted as not interpretable",
+        design="6 C19",
+    ),
+    "C20": dict(
+        category="exploration",
+        technique="differential monitor (-p vs none, with --profile-frequency, -j1..8) + size oracle: souffleprof's TUPLES cell vs the tuples counted in the output file",
+        text=("Generated programs with every relation output: profiling must not change any output; for every non-eqrel relation the "
+              "profile lists, the tuple count souffleprof reports equals the number of tuples the relation holds (cells >= 1000 are "
+              "abbreviated and skipped)."),
+        note="trusts: generator distribution; interpreter only",
+        design="6 C20",
+    ),
+    "C22": dict(
+        category="exploration",
+        technique="uniqueness monitor over all values autoinc() wrote, plus derivation-count conservation, at -j1..16 with injected schedule perturbation",
+        text=("Template programs deriving 10^2-10^4 tuples with autoinc() in scans and joins, several rules sharing the counter: no value "
+              "occurs twice across all designated columns and every relation holds exactly one tuple per derivation, at -j1 and three of "
+              "{2,3,4,8,16} threads."),
+        note="trusts: OS + injected perturbation; interpreter only",
+        design="6 C22",
+    ),
+    "C23": dict(
+        category="exploration",
+        technique="reference-model monitor: limited run vs the unlimited least model (Python): subset, equality below the limit, at least n tuples otherwise",
+        text=("Generated recursive programs plus a long-chain closure component with .limitsize on one or two relations of one stratum, limits "
+              "from 0 to beyond the unlimited size: limited stratum is a subset of the unlimited model, everything equals it when no "
+              "limit is reached, a reached limit leaves >= n tuples, unrelated relations are unchanged."),
+        note="trusts: the reference model; interpreter only",
+        design="6 C23",
+    ),
+}
+
 NOT_APPLICABLE = {}
 HOOK_COMMITS = ["9c71e4cac"]
